@@ -19,6 +19,7 @@ M = [
  ("c19-complete-before-last-result", "C19", "src/commands/serve.rs", "                    .hash(hash)\n                        .meta(serde_json::json!({\n                            \"command_id\": command.id.to_string(),\n                            \"frame_id\": frame.id.to_string(),", "                    .hash(hash)\n                        .meta(serde_json::json!({\n                            \"command_id\": frame.id.to_string(),\n                            \"frame_id\": frame.id.to_string(),"),
  ("c20-import-rewrites-id", "C20", "src/api.rs", "    let frame: Frame = match serde_json::from_slice(&bytes) {\n        Ok(frame) => frame,", "    let frame: Frame = match serde_json::from_slice::<Frame>(&bytes) {\n        Ok(mut frame) => {\n            if frame.ttl == Some(TTL::Forever) {\n                frame.ttl = None;\n            }\n            frame\n        }"),
  ("c08-stale-topic-index-miscounts-head", "C08", "src/store/mod.rs", "        batch.remove(&self.idx_topic, topic_key);\n", ""),
+ ("c02-id-outside-lock-no-hook-between", "C02", "src/store/mod.rs", "        let _append_guard = self.append_lock.lock().unwrap();\n        frame.id = scru128::new();\n", "        frame.id = scru128::new();\n        let _append_guard = self.append_lock.lock().unwrap();\n"),
  ("c02-broadcast-outside-lock", "C02", "src/store/mod.rs", "        let _append_guard = self.append_lock.lock().unwrap();\n", "        let _append_guard = if frame.topic == \"xs.context\" { Some(self.append_lock.lock().unwrap()) } else { None };\n"),
  ("c04-ack-before-remove-sync", "C04", "src/store/mod.rs", "        batch.commit()?;\n        self.keyspace.persist(fjall::PersistMode::SyncAll)?;\n        #[cfg(feature = \"verif\")]\n        self.verif.point(\"commit.post\", Some(&frame));", "        batch.commit()?;\n        self.keyspace.persist(fjall::PersistMode::Buffer)?;\n        #[cfg(feature = \"verif\")]\n        self.verif.point(\"commit.post\", Some(&frame));"),
 ]
